@@ -363,6 +363,8 @@ class ConvexSpheropolyhedron(Shape3D):
         data = self.to_json(["vertices", "radius", "volume"])
         hoomd_dict = _map_dict_keys(data, key_mapping=_hoomd_dict_mapping)
         hoomd_dict["centroid"] = [0, 0, 0]
+        # Copy the centered vertices: the internal array is moved back below.
+        hoomd_dict["vertices"] = np.array(hoomd_dict["vertices"])
 
         self._polyhedron.centroid = old_centroid
         return hoomd_dict
